@@ -103,6 +103,7 @@ def correspond(ctx):
         lines.append(f"f\t{pmodel.encode_call(name, args)}\t{pmodel.encode_events(evs, ids)}")
         cases.append((name, args, evs, ids, specs))
     outs = common.run_driver("C03", lines)
+    broken_seen = []
     for (name, args, evs, ids, specs), out, line in zip(cases, outs, lines):
         res, err = run_real(name, args, evs)
         real = err if err else "ok " + pmodel.ids_of(res, ids)
@@ -115,6 +116,15 @@ def correspond(ctx):
         if real != out:
             ctx.brk("correspondence-broken", f"{name}{canon_args(args)}: code `{real}` vs model `{out}`",
                     case=dict(filter=name, args=canon_args(args), events=specs, line=line))
+            # where model and code part ways is the first place to look for a failing input of the property itself
+            if len(broken_seen) < 12:
+                broken_seen.append(1)
+                r = oracle_one(name, args, evs, ids)
+                if r:
+                    _, specs2 = shrink(name, args, specs, r[0])
+                    ctx.violation(r[0], r[1], dict(input=dict(filter=name, args=canon_args(args),
+                                                               arg_type=type(args[-1]).__name__ if args else None, events=specs2),
+                                                   how_to_replay="./check C03 --replay <this file>"))
 
 
 # ------------------------------------------------------------------ oracle
